@@ -40,3 +40,19 @@ int GUEST_PREFIX(g_call_b)(int (*cb)(short, double, char*, unsigned long), short
 {
   return cb(s, d, p, ul) + 1;
 }
+
+/* State and calls that the library reaches through its own dynamic symbols (GOT / PLT when built -fPIC): they stay
+ * inside this copy of the library only as long as the loader keeps the copies apart. */
+int g_guest_counter;
+int GUEST_PREFIX(g_bump)(void)
+{
+  return ++g_guest_counter;
+}
+void GUEST_PREFIX(g_reset)(void)
+{
+  g_guest_counter = 0;
+}
+int GUEST_PREFIX(g_lib_id_indirect)(void)
+{
+  return GUEST_PREFIX(g_lib_id)();
+}
